@@ -40,6 +40,7 @@ StrVals  == {"", "a", "bc"}
 UNSET    == "<unset>"            \* slot of NewStrVector(n): one uninitialised byte, content undefined
 Dims     == 0..MaxDim
 Idxs     == 0..(MaxDim + 1)      \* API indices tried by accessors (in and out of range)
+FarIdx   == {1000001, 1000002, 1000003, 1000004}   \* codes of far out-of-range indices: (size_t)-1, 2^63, 2^63+1, 2^32 (mapped by the replay harness)
 Max(a, b) == IF a > b THEN a ELSE b
 
 (* ---------------------------------------------------------------- values ---------------------- *)
@@ -389,6 +390,12 @@ DlNew0(x) == /\ On("dl") /\ ~LLive(x)
              /\ dl' = [dl EXCEPT ![x] = [live |-> TRUE, d |-> <<>>]]
              /\ op' = O("NewDVectorList", "na", {}, {R("dl", x)}, {R("dl", x)}, [x |-> x, n |-> 0])
              /\ UNCHANGED oDl
+\* NewDVectorList(n) followed by the only way the API offers to make the n slots valid: NewDVector(&l->d[q], len) on every slot
+\* (the member is public; the python bindings do the same).  One composite call: the list then owns exactly n slots.
+DlNewN(x, vs) == /\ On("dl") /\ ~LLive(x) /\ Len(vs) >= 1
+                 /\ dl' = [dl EXCEPT ![x] = [live |-> TRUE, d |-> vs]]
+                 /\ op' = O("NewDVectorListFilled", "na", {}, {R("dl", x)}, {R("dl", x)}, [x |-> x, vss |-> vs])
+                 /\ UNCHANGED oDl
 \* DVectorListAppend(l, v): a deep copy of v becomes the last element
 DlAppend(x, v) == /\ On("dl") /\ LLive(x) /\ Len(dl[x].d) < MaxDim
                   /\ dl' = [dl EXCEPT ![x].d = Append(@, v)]
@@ -410,6 +417,7 @@ NextVec == \E k \in VKinds \cap Kinds, x \in Pool :
              \/ \E i \in Idxs, v \in Vals : VSet(k, x, i, v) \/ VSetOor(k, x, i, v)
              \/ \E y \in Pool : VCopy(k, x, y)
              \/ \E b, y \in Pool : VExtend(k, x, b, y)
+             \/ \E f \in FarIdx : VGetOor(k, x, f) \/ VRemoveAt(k, x, f) \/ \E v \in Vals : VSetOor(k, x, f, v)
 NextSv == \E x \in PoolOn("sv") :
              \/ SvInit(x) \/ SvDel(x)
              \/ \E n \in Dims : SvNew(x, n) \/ SvResize(x, n)
@@ -426,6 +434,8 @@ NextMx == \E x \in PoolOn("mx") :
              \/ \E i \in Idxs : MxGetRowOor(x, i) \/ MxGetColOor(x, i) \/ MxDelRow(x, i) \/ MxDelCol(x, i)
                                \/ \E y \in Pool : MxGetRow(x, i, y) \/ MxGetCol(x, i, y)
              \/ \E v \in VecsUpTo(MaxDim), ui \in BOOLEAN : MxAppendRow(x, v, ui) \/ MxAppendCol(x, v, ui)
+             \/ \E f \in FarIdx : MxGetOor(x, f, 0) \/ MxGetOor(x, 0, f) \/ MxGetRowOor(x, f) \/ MxGetColOor(x, f)
+                                  \/ \E v \in Vals : MxSetOor(x, f, 0, v) \/ MxSetOor(x, 0, f, v)
 NextTn == \E x \in PoolOn("tn") :
              \/ TnInit(x) \/ TnDel(x)
              \/ \E n \in Dims : TnNew(x, n)
@@ -434,9 +444,12 @@ NextTn == \E x \in PoolOn("tn") :
              \/ \E k \in Idxs, v \in VecsUpTo(MaxDim) : TnAppendCol(x, k, v)
              \/ \E v \in Vals : TnFill(x, v)
              \/ \E y \in Pool : TnCopy(x, y)
+             \/ \E f \in FarIdx : TnGetOor(x, f, 0, 0) \/ TnGetOor(x, 0, f, 0) \/ TnGetOor(x, 0, 0, f)
+                                  \/ \E v \in Vals : TnSetOor(x, f, 0, 0, v) \/ TnSetOor(x, 0, f, 0, v) \/ TnSetOor(x, 0, 0, f, v)
 NextDl == \E x \in PoolOn("dl") :
              \/ DlInit(x) \/ DlNew0(x) \/ DlDel(x)
              \/ \E v \in VecsUpTo(MaxDim) : DlAppend(x, v)
+             \/ \E n \in 1..(MaxDim - 1) : \E vs \in [1..n -> VecsUpTo(MaxDim)] : DlNewN(x, vs)
 Next == NextVec \/ NextSv \/ NextMx \/ NextTn \/ NextDl
 Spec == Init /\ [][Next]_vars
 
@@ -534,6 +547,8 @@ GenVec(k) ==
   \/ L # {} /\ \E x \in One(L), v \in One(Vals) : \E i \in {OutIdx(Len(VD(k, x)))} : VSetOor(k, x, i, v)
   \/ NE # {} /\ \E x \in One(NE) : \E i \in {RandIdx(Len(VD(k, x)))} : VGet(k, x, i)
   \/ L # {} /\ \E x \in One(L) : \E i \in {OutIdx(Len(VD(k, x)))} : VGetOor(k, x, i)
+  \/ L # {} /\ \E x \in One(L), v \in One(Vals), f \in One(FarIdx), w \in One(1..3) :
+        IF w = 1 THEN VSetOor(k, x, f, v) ELSE IF w = 2 THEN VGetOor(k, x, f) ELSE VRemoveAt(k, x, f)
   \/ L # {} /\ \E x \in One(L), v \in One(Vals) : VHas(k, x, v)
   \/ L # {} /\ \E x \in One(L), v \in One(Vals) : VIndexOf(k, x, v)
   \/ L # {} /\ \E x \in One(L), v \in One(Vals) : VFill(k, x, v)
@@ -571,6 +586,9 @@ GenMx ==
            MxGetOor(x, i, j)
   \/ DD # {} /\ R1 # {} /\ \E x \in One(R1), y \in One(DD) : \E i \in {RandIdx(mx[x].row)} : MxGetRow(x, i, y)
   \/ DD # {} /\ C1 # {} /\ \E x \in One(C1), y \in One(DD) : \E j \in {RandIdx(mx[x].col)} : MxGetCol(x, j, y)
+  \/ L # {} /\ \E x \in One(L), v \in One(Vals), f \in One(FarIdx), w \in One(1..6) :
+        IF w = 1 THEN MxSetOor(x, f, 0, v) ELSE IF w = 2 THEN MxSetOor(x, 0, f, v) ELSE IF w = 3 THEN MxGetOor(x, f, 0)
+        ELSE IF w = 4 THEN MxGetOor(x, 0, f) ELSE IF w = 5 THEN MxGetRowOor(x, f) ELSE MxGetColOor(x, f)
   \/ L # {} /\ \E x \in One(L) : \E i \in {OutIdx(mx[x].row)} : MxGetRowOor(x, i)
   \/ L # {} /\ \E x \in One(L) : \E j \in {OutIdx(mx[x].col)} : MxGetColOor(x, j)
   \/ L # {} /\ \E x \in One(L), ui \in One(BOOLEAN) : \E n \in {AroundLen(mx[x].col)} : \E v \in {RandVec(n)} : MxAppendRow(x, v, ui)
@@ -592,6 +610,9 @@ GenTn ==
         \E k \in {IF w = 1 \/ Order(x) = 0 THEN OutIdx(Order(x)) ELSE RandIdx(Order(x))} :
           \E i \in {IF w = 2 /\ k < Order(x) THEN OutIdx(tn[x].m[k + 1].row) ELSE 0}, j \in {IF w = 3 /\ k < Order(x) THEN OutIdx(tn[x].m[k + 1].col) ELSE 0} :
              IF set THEN TnSetOor(x, k, i, j, v) ELSE TnGetOor(x, k, i, j)
+  \/ F # {} /\ \E x \in One(F), v \in One(Vals), f \in One(FarIdx), w \in One(1..6) :
+        IF w = 1 THEN TnSetOor(x, f, 0, 0, v) ELSE IF w = 2 THEN TnSetOor(x, 0, f, 0, v) ELSE IF w = 3 THEN TnSetOor(x, 0, 0, f, v)
+        ELSE IF w = 4 THEN TnGetOor(x, f, 0, 0) ELSE IF w = 5 THEN TnGetOor(x, 0, f, 0) ELSE TnGetOor(x, 0, 0, f)
   \/ F # {} /\ \E x \in One(F), c \in {SizeDraw} : \E r \in {IF Order(x) > 0 THEN tn[x].m[Order(x)].row ELSE SizeDraw} : \E f \in One(CellsOf(r, c)) : TnAppendMatrix(x, r, c, f)
   \/ O1 # {} /\ \E x \in One(O1) : \E k \in {RandIdx(Order(x))} : \E n \in {AroundLen(tn[x].m[k + 1].row)} : \E v \in {RandVec(n)} : TnAppendCol(x, k, v)
   \/ F # {} /\ \E x \in One(F), v \in One(Vals) : TnFill(x, v)
@@ -600,6 +621,7 @@ GenTn ==
 GenDl ==
   LET L == {x \in Pool : LLive(x)}  D == {x \in Pool : ~LLive(x)} IN
   \/ D # {} /\ \E x \in One(D), w \in One(BOOLEAN) : IF w THEN DlInit(x) ELSE DlNew0(x)
+  \/ D # {} /\ MaxDim >= 2 /\ \E x \in One(D), n \in One(1..(MaxDim - 1)) : \E vs \in {[q \in 1..n |-> RandVec(Pick(0..MaxDim))]} : DlNewN(x, vs)
   \/ L # {} /\ \E x \in One(L) : DlDel(x)
   \/ L # {} /\ \E x \in One(L) : \E n \in {AroundLen(IF Len(dl[x].d) = 0 THEN 0 ELSE Len(dl[x].d[Len(dl[x].d)]))} : \E v \in {RandVec(n)} : DlAppend(x, v)
 
